@@ -906,13 +906,42 @@ Proof.
   - eapply Permutation_trans; eassumption.
 Qed.
 
+Lemma acc_power_perm occ occ' s : Permutation occ occ' -> acc_power occ s = acc_power occ' s.
+Proof. intros P. unfold acc_power. apply zsum_perm, Permutation_map, filter_perm, P. Qed.
+
+Lemma first_occ_In l x : In x (first_occ l) <-> In x l.
+Proof.
+  unfold first_occ. rewrite <- in_rev. rewrite nodup_In. rewrite <- in_rev. reflexivity.
+Qed.
+
+Lemma first_occ_NoDup l : NoDup (first_occ l).
+Proof.
+  unfold first_occ. eapply Permutation_NoDup; [apply Permutation_rev|]. apply NoDup_nodup.
+Qed.
+
+Lemma first_occ_perm l l' : Permutation l l' -> Permutation (first_occ l) (first_occ l').
+Proof.
+  intros P. apply NoDup_Permutation; try apply first_occ_NoDup.
+  intro x. rewrite !first_occ_In. split; intro H.
+  - eapply Permutation_in; [exact P|exact H].
+  - eapply Permutation_in; [apply Permutation_sym, P|exact H].
+Qed.
+
+Lemma alloc_accum_perm R occ occ' rewards :
+  Permutation occ occ' ->
+  feq (fst (alloc_accum R occ rewards)) (fst (alloc_accum R occ' rewards)) /\
+  snd (alloc_accum R occ rewards) = snd (alloc_accum R occ' rewards).
+Proof.
+  intros P. unfold alloc_accum. apply alloc_stakers_perm.
+  eapply Permutation_trans; [apply sort_by_is_perm|].
+  eapply Permutation_trans; [|apply Permutation_sym, sort_by_is_perm].
+  rewrite (map_ext (fun s => (s, acc_power occ s)) (fun s => (s, acc_power occ' s)))
+    by (intro s; rewrite (acc_power_perm occ occ' s P); reflexivity).
+  apply Permutation_map, first_occ_perm, Permutation_map, P.
+Qed.
+
 Lemma alloc_from_assets_perm R stakers_of power assets assets' rewards :
   Permutation assets assets' ->
   feq (fst (alloc_from_assets R stakers_of power assets rewards)) (fst (alloc_from_assets R stakers_of power assets' rewards)) /\
   snd (alloc_from_assets R stakers_of power assets rewards) = snd (alloc_from_assets R stakers_of power assets' rewards).
-Proof.
-  intros P. unfold alloc_from_assets. apply alloc_stakers_perm.
-  eapply Permutation_trans; [apply sort_by_is_perm|].
-  eapply Permutation_trans; [|apply Permutation_sym, sort_by_is_perm].
-  apply flat_map_perm, P.
-Qed.
+Proof. intros P. unfold alloc_from_assets. apply alloc_accum_perm, flat_map_perm, P. Qed.
